@@ -9,7 +9,7 @@ from ..terms import A, C, F, V, call, conj, show_program, show_term, term_vars, 
 
 ID = 'C07'
 LEVEL = 'model_checking'
-RULE = ('(m) matching = unification: for every ordered pair (t1,t2) of the term universe of C02 (depth <=1 incl. zero-argument compounds, list-shaped terms, odd Python constants) the store {m(t1)} is asked m(t2) and retract(m(t2)): one answer with the bindings of the unifier iff the terms unify. (h) every history (operation sequence) of depth d over the event alphabet {asserta/assertz of p(a) p(b) p(X) '
+RULE = ('(L) large stores: 17 sizes N up to 130 of cfg(k_i,v_i) facts with one catch-all fact cfg(_,default) at the front / middle / end, queried with known, unknown, structured and unbound first arguments and retracted from, compared with the list model. (m) matching = unification: for every ordered pair (t1,t2) of the term universe of C02 (depth <=1 incl. zero-argument compounds, list-shaped terms, odd Python constants) the store {m(t1)} is asked m(t2) and retract(m(t2)): one answer with the bindings of the unifier iff the terms unify. (h) every history (operation sequence) of depth d over the event alphabet {asserta/assertz of p(a) p(b) p(X) '
         'p(f(Y)) q(a,b) flag; retract of p(a) p(X) p(f(X)) q(X,Y) flag nosuch(X), retract(p(X)) run to exhaustion / '
         'abandoned after the 1st / after the 2nd answer; retractall of p(a) p(_) flag nosuch(_); facts of a predicate named like an API function (variable/1) and a zero-argument fact held twice and retracted once; patterns with a repeated variable q(X,X) and partially bound q(X,a) over q/2 facts; clear}, from 4 initial '
         'stores, in 3 dress-ups (Python API - for histories with a clear also with the Atom objects of the caller created once and held across the clear, and (full alphabet) with the query objects of the whole history constructed first and evaluated later, which must change nothing; compiled clauses; compiled clauses receiving the goal in a variable bound '
@@ -394,6 +394,46 @@ def run_match(spec, acc):
                 yp.assert_fact(yp.atom('m'), [impl.to_engine(yp, t1, {})])
 
 
+# ---------------------------------------------------------------- large stores
+# N facts cfg(k_i, v_i) plus ONE catch-all fact cfg(_, default) at the front, in the middle or at the
+# end (and a second fact for k1 behind everything), for N around the powers of two up to 130: queries
+# with an atom, an unknown atom, a variable as first argument; retract of one key; compared with the
+# list model.
+LARGE_N = (1, 2, 7, 8, 9, 15, 16, 17, 31, 32, 33, 63, 64, 65, 100, 128, 130)
+
+
+def large_cases():
+    idx = 0
+    for n in LARGE_N:
+        for where in ('front', 'middle', 'end'):
+            facts = [F('cfg', A('k%d' % i), A('v%d' % i)) for i in range(1, n + 1)]
+            catch = F('cfg', ('v', ('_', 1)), A('default'))
+            pos = {'front': 0, 'middle': n // 2, 'end': n}[where]
+            facts = facts[:pos] + [catch] + facts[pos:] + [F('cfg', A('k1'), A('again'))]
+            yield idx, n, where, facts
+            idx += 1
+
+
+def run_large(spec, acc):
+    from ..diff import Case, account
+    _, k, n = spec
+    for idx, nf, where, facts in large_cases():
+        if idx % n != k:
+            continue
+        Vq, Kq = V('Vq'), V('Kq')
+        qs = [F('cfg', A('k1'), Vq), F('cfg', A('k%d' % nf), Vq), F('cfg', A('k%d' % ((nf + 1) // 2)), Vq), F('cfg', A('nokey'), Vq),
+              F('cfg', Kq, A('default')), F('cfg', Kq, A('v%d' % nf)), F('cfg', F('f', Kq), Vq)]
+        if nf <= 33:
+            qs.append(F('cfg', Kq, Vq))
+        prog = [(F('drop', V('K'), V('Val')), call(F('retract', F('cfg', V('K'), V('Val'))))), (F('look', V('K'), V('Val')), call(F('cfg', V('K'), V('Val'))))]
+        qs2 = [F('look', A('k1'), Vq), F('drop', A('k1'), Vq), F('cfg', A('k1'), Vq), F('drop', A('nokey'), Vq), F('look', A('k2'), Vq), F('look', A('nokey'), Vq)]
+        case = Case([(prog, True, True)], [(f, True) for f in facts], qs + qs2, repeat=1, ref_steps=200000, budget=True)
+        res = case.run()
+        if res['status'] == 'violation':
+            res['sig'] = 'large-store:' + res['sig']
+        account(acc, ('large', idx), case, res, key='large|%d|%s' % (nf, where))
+
+
 def _jm(t):
     from ..diff import _j
     return _j(t)
@@ -424,6 +464,7 @@ def plan(tier):
                 for k in range(n):
                     sh.append((alpha, depth, dress, ii, k, n))
     sh += [('match', k, 32) for k in range(32)]
+    sh += [('large', k, 8) for k in range(8)]
     return sh
 
 
@@ -436,6 +477,10 @@ def run_shard(spec):
     if spec[0] == 'match':
         acc = Acc()
         run_match(spec, acc)
+        return acc
+    if spec[0] == 'large':
+        acc = Acc()
+        run_large(spec, acc)
         return acc
     alpha, depth, dress, ii, k, n = spec
     _keys['now'] = KEYS_RESERVED if alpha == 'reserved' else KEYS
@@ -475,6 +520,10 @@ def run_shard(spec):
 
 
 def replay(case):
+    if 'scripts' in case:
+        from ..diff import Case
+        res = Case.from_json(case).run()
+        return [('large-store:' + res['sig'], res['detail'])] if res['status'] == 'violation' else []
     if 'match' in case:
         from ..diff import _t
         from ..refprolog import unify_nsto
